@@ -586,7 +586,14 @@ def st_additive_tree(draw, min_n, max_n):
     weights = draw(st_weights(max(2 * n - 3, 1), mode))
     weights = [w * scale for w in weights]
     perm = draw(st.permutations(list(range(n))))
-    return {"n": n, "attach": attach, "w": weights, "perm": list(perm), "dtype": draw(st.sampled_from(["float64", "float32", "float64"]))}
+    return {
+        "n": n,
+        "attach": attach,
+        "w": weights,
+        "perm": list(perm),
+        "dtype": draw(st.sampled_from(["float64", "float32", "float64"])),
+        "layout": draw(st.sampled_from(["c", "c", "f", "strided"])),
+    }
 
 
 def st_matrix_case(tier, min_n):
@@ -634,7 +641,8 @@ def st_matrix_case(tier, min_n):
         else:
             t = draw(st_additive_tree(n, n))
             d = additive_matrix(n, t["attach"], t["w"], t["perm"])
-        return {"n": n, "d": d.tolist(), "dtype": dtype, "kind": kind}
+        layout = draw(st.sampled_from(["c", "c", "f", "strided"]))
+        return {"n": n, "d": d.tolist(), "dtype": dtype, "kind": kind, "layout": layout}
 
     return gen()
 
@@ -654,11 +662,31 @@ def st_nj_additive(tier):
 # --------------------------------------------------------------------------
 # run: clustering
 # --------------------------------------------------------------------------
+def _layout(arr, layout):
+    """the same values in another memory layout: Fortran order or a strided view into a larger block"""
+    if layout == "f":
+        return np.asfortranarray(arr)
+    if layout == "strided":
+        big = np.zeros((2 * arr.shape[0], 3 * arr.shape[1]), dtype=arr.dtype)
+        big[::2, 1::3] = arr
+        return big[::2, 1::3]
+    return arr
+
+
 def _matrix(case):
     d = np.array(case["d"], dtype=np.float64)
     if case["dtype"] == "int64":
-        return d.astype(np.int64)
-    return d.astype(case["dtype"])
+        return _layout(d.astype(np.int64), case.get("layout", "c"))
+    return _layout(d.astype(case["dtype"]), case.get("layout", "c"))
+
+
+def _cluster_twice(o, fn, dm):
+    """The caller's matrix is used for two calls: the tree that is examined is the one of the second call,
+    the oracle works on the values the matrix had before the first."""
+    if dm.shape[0] <= 8:
+        fn(dm)
+        o.label("matrix_object_used_twice")
+    return fn(dm)
 
 
 class CNode:
@@ -718,8 +746,8 @@ def run_upgma(case):
     n = case["n"]
     dm = _matrix(case)
     d = dm.astype(np.float64)
-    tree = upgma(dm)
-    o.label(f"kind={case['kind']}", f"dtype={case['dtype']}", "n>=5" if n >= 5 else "n<5")
+    tree = _cluster_twice(o, upgma, dm)
+    o.label(f"kind={case['kind']}", f"dtype={case['dtype']}", "n>=5" if n >= 5 else "n<5", "layout=" + case.get("layout", "c"))
     if not check_leaves(o, tree, n, "every_index_exactly_one_leaf"):
         return o
     scale = float(d.max()) if n > 1 else 0.0
@@ -813,9 +841,10 @@ def run_nj_additive(case):
     o = Outcome()
     n = case["n"]
     d = additive_matrix(n, case["attach"], case["w"], case["perm"])
-    dm = d.astype(case["dtype"])
+    dm = _layout(d.astype(case["dtype"]), case.get("layout", "c"))
     d = dm.astype(np.float64)
-    tree = neighbor_joining(dm)
+    tree = _cluster_twice(o, neighbor_joining, dm)
+    o.label("layout=" + case.get("layout", "c"))
     scale = float(d.max())
     o.label(f"n={n}" if n < 6 else "n>=6", f"dtype={case['dtype']}")
     nz = sum(1 for w in case["w"][: 2 * n - 3] if w == 0)
@@ -863,8 +892,10 @@ def run_nj_any(case):
     o = Outcome()
     n = case["n"]
     dm = _matrix(case)
-    tree = neighbor_joining(dm)
-    o.label(f"kind={case['kind']}", f"dtype={case['dtype']}")
+    d_before = np.array(dm, dtype=np.float64)
+    tree = _cluster_twice(o, neighbor_joining, dm)
+    o.check_array_eq(np.array(dm, dtype=np.float64), d_before, "matrix_argument_unchanged", "distance matrix after neighbor_joining()")
+    o.label(f"kind={case['kind']}", f"dtype={case['dtype']}", "layout=" + case.get("layout", "c"))
     if not check_leaves(o, tree, n, "every_index_exactly_one_leaf"):
         return o
     root = CNode(tree.root, None)
